@@ -62,9 +62,18 @@ fn call_print(args: &[Object]) -> Result<Object, Error> {
         }
         output.push_str(rest);
 
+        #[cfg(feature = "verif")]
+        if crate::verif::capture(&output) {
+            crate::verif::capture("\n");
+            return Ok(Object::null());
+        }
         print!("{output}");
     }
 
+    #[cfg(feature = "verif")]
+    if crate::verif::capture("\n") {
+        return Ok(Object::null());
+    }
     println!();
     Ok(Object::null())
 }
